@@ -219,3 +219,25 @@ def plan_c17(tier, seed):
         T(mo.check_sign_steps, "C17", "Variance")
         T(mo.check_sign_steps, "C17", "Moments4")
     return run_set("C17", tier, False, body)
+
+
+def plan_c20(tier, seed):
+    from . import ingest as ig
+
+    def body(W, T):
+        for ty in ig.SINGLE + ig.PAIR:
+            T(ig.check_ingestion, "C20", ty, 3 if tier == "quick" else 4)
+        T(ig.check_estimate_headline, "C20")
+        T(ig.check_concatenate, "C20", 3 if tier == "quick" else 5)
+    return run_set("C20", tier, True, body)
+
+
+def plan_c15(tier, seed):
+    from . import quant as qu
+
+    def body(W, T):
+        T(qu.check_p2_init, "C15")
+        T(qu.check_quantile_reads_middle, "C15")
+        T(qu.check_p2_step, "C15")
+        T(qu.check_reference_invariants, "C15")
+    return run_set("C15", tier, False, body)
